@@ -10,9 +10,14 @@ pub mod c03;
 pub mod c04;
 pub mod c05;
 pub mod c06;
+pub mod c07;
 pub mod c08;
 pub mod c09;
+pub mod c10;
+pub mod c11;
+pub mod c12;
 pub mod c13;
+pub mod c14;
 pub mod c15;
 pub mod c16;
 pub mod c17;
@@ -29,9 +34,14 @@ pub fn run(cfg: &Cfg) -> i32 {
         "C04" => c04::run(cfg),
         "C05" => c05::run(cfg),
         "C06" => c06::run(cfg),
+        "C07" => c07::run(cfg),
         "C08" => c08::run(cfg),
         "C09" => c09::run(cfg),
+        "C10" => c10::run(cfg),
+        "C11" => c11::run(cfg),
+        "C12" => c12::run(cfg),
         "C13" => c13::run(cfg),
+        "C14" => c14::run(cfg),
         "C15" => c15::run(cfg),
         "C16" => c16::run(cfg),
         "C17" => c17::run(cfg),
@@ -53,9 +63,14 @@ pub fn replay_case(prop: &str, ctx: &mut Ctx, case: &Value) -> Result<(), Violat
         "C04" => c04::replay(ctx, case),
         "C05" => c05::replay(ctx, case),
         "C06" => c06::replay(ctx, case),
+        "C07" => c07::replay(ctx, case),
         "C08" => c08::replay(ctx, case),
         "C09" => c09::replay(ctx, case),
+        "C10" => c10::replay(ctx, case),
+        "C11" => c11::replay(ctx, case),
+        "C12" => c12::replay(ctx, case),
         "C13" => c13::replay(ctx, case),
+        "C14" => c14::replay(ctx, case),
         "C15" => c15::replay(ctx, case),
         "C16" => c16::replay(ctx, case),
         "C17" => c17::replay(ctx, case),
